@@ -6,13 +6,15 @@ the top state `q` pops `k = |rhs p|` states and pushes `goto(s, A)` for the expo
 parser loops forever exactly when such a sequence never ends (F24: a unit reduction `N → N` repeated
 on the same stack, or an ε-reduction `N → ε` in a state with `goto(q, N) = q`). Two checkers:
 
-**Exact checker `lrNoReduceLoopB`** (second half of this file; theorem `lr_terminates`). The
+**Exact checker `lrNoReduceLoopB`** (second half of this file; theorems `lr_terminates`,
+`lr_terminates_bound` with the explicit fuel `lrSummFuel`, Props/C19d.lean). The
 computation `Comp t s q` that starts with `q` on top of `s` and lasts while `s` is stacked never looks
 below `s`; it either stops (shift, accept, error) or returns by a reduction that pops `s` and `j` more
 states. `compF` evaluates it with bounded recursion depth, `lrSummOk` VERIFIES the resulting summary
 table (`summCond`: consistency with one unfolding of the parser step, for every lookahead and every
-transition `s → q` of the automaton plus the pair "bottom of the stack, state 0"); only the
-verification matters for the proof. A table fails iff some `Comp t s q` does not finish.
+transition `s → q` of the automaton plus the pair "bottom of the stack, state 0"; all costs at most
+`maxc`); only the verification matters for the proof. A table fails iff some `Comp t s q` does not
+finish. Neither `gprods` nor `lrTableValid` is needed: lengths come from the runtime production table.
 
 **Ranking checker `lrRankCheckB`** (first half; theorem `lr_terminates_linear`, explicit fuel bound).
 A ranking certificate per lookahead terminal:
